@@ -48,11 +48,12 @@ def run(t):
     for (v, inv), res_ in negs:
         tlc_must_fail(res_, v, expect=inv)
     run.cov["negative_controls"] = [v for v, _ in NEG]
-    cfg = "XmlC14n_GenDeep.cfg" if deep else "XmlC14n_Gen.cfg"
-    g = run_tlc("XmlC14n_MC", cfg, timeout=3600, heap="24g")
-    tlc_must_pass(g, cfg)
-    run.add_tlc(g, cfg)
-    behs = g.beh
+    behs = []
+    for cfg in (["XmlC14n_Gen.cfg", "XmlC14n_GenDeep.cfg"] if deep else ["XmlC14n_Gen.cfg"]):
+        g = run_tlc("XmlC14n_MC", cfg, timeout=3600, heap="24g")
+        tlc_must_pass(g, cfg)
+        run.add_tlc(g, cfg)
+        behs += g.beh
     if len(behs) < 100000:
         raise NoVerdict(f"only {len(behs)} documents")
     shards = 8
@@ -77,7 +78,7 @@ def run(t):
     if o["counters"].get("jdk_judged", 0) < 30 and not o["failures"]:
         raise NoVerdict(f"JDK validator judged only {o['counters'].get('jdk_judged')} rewrites: {o['notes'][:3]}")
     _absorb(run, o)
-    run.cov["rule"] = (f"{ndocs} of {len(behs)} generated documents (seeded sample in quick, all in thorough), each in three lexical styles (attribute order, "
+    run.cov["rule"] = (f"{ndocs} of {len(behs)} generated documents (seeded sample in quick; thorough: all documents of two option-set configurations), each in three lexical styles (attribute order, "
                        "quote style, empty-element form, prolog, comments outside, CDATA/character references, whitespace in tags): "
                        "xmldsig.SerializeCanonical on the chosen subtree = the model's canonical form = the JDK exclusive canonicaliser, byte for byte; "
                        "signed manifest (RSA/P-256 x SHA-1/SHA-256; strong-name and licence signatures) under 14 rewrites and signed VSIX package "
